@@ -431,6 +431,18 @@ def main(out_path: str):
         "AUDIO_QUALITY_VOICE_ONLY", "AUDIO_QUALITY_LOW", "AUDIO_QUALITY_NORMAL", "AUDIO_QUALITY_EXTERNAL",
         "FIELD_LIST", "TABLE_LIST", "LIST_NOLABEL")}, "constants used by the parameter / appearance blocks of workbook_to_json"))
     parts.append(list_s("xmlReservedNamespaces", sorted(getattr(utils, "XML_RESERVED_NAMESPACES", ())), "utils.XML_RESERVED_NAMESPACES (validate_xml_document; empty before the C01-reserved-namespace-names fix)"))
+    # C05: parameter vocabularies the bind slice used to carry as hand-written lists
+    from pyxform.validators.pyxform import parameters_generic as _pg
+    parts.append(list_s("audioQualityValues", [C.AUDIO_QUALITY_VOICE_ONLY, C.AUDIO_QUALITY_LOW, C.AUDIO_QUALITY_NORMAL, C.AUDIO_QUALITY_EXTERNAL], "constants.AUDIO_QUALITY_{VOICE_ONLY,LOW,NORMAL,EXTERNAL}"))
+    parts.append(list_s("caseSensitiveParamValues", _pg.CASE_SENSITIVE_VALUES, "parameters_generic.CASE_SENSITIVE_VALUES"))
+    parts.append(list_s("auditParamNames", [C.LOCATION_PRIORITY, C.LOCATION_MIN_INTERVAL, C.LOCATION_MAX_AGE, C.TRACK_CHANGES, C.IDENTIFY_USER, C.TRACK_CHANGES_REASONS], "constants.LOCATION_PRIORITY, LOCATION_MIN_INTERVAL, LOCATION_MAX_AGE, TRACK_CHANGES, IDENTIFY_USER, TRACK_CHANGES_REASONS"))
+    _rd = None
+    for _n in ast.walk(ast.parse(inspect.getsource(x2j.process_range_question_type))):
+        if isinstance(_n, ast.Assign) and len(_n.targets) == 1 and getattr(_n.targets[0], "id", None) == "defaults":
+            _rd = ast.literal_eval(_n.value)
+    if not isinstance(_rd, dict):
+        raise SystemExit("translator: cannot read the range defaults of process_range_question_type")
+    parts.append(dict_ss("rangeDefaults", _rd, "xls2json.process_range_question_type: defaults"))
     parts.append("end Pyxv.Gen\n")
     # several slices may ask for the same table: keep the first definition of each name
     seen, uniq = set(), []
